@@ -5,7 +5,7 @@
 // exec prints "> D <hex> badurl=<hex,..> badproto=<hex,..>" (the op annotated with the verdicts of
 // url.ParseRequestURI / http.ParseHTTPVersion the real processors gave, which the model takes as
 // inputs) followed by
-//        R ok cache=<n> [ev;ev;...] msgs=<delivered messages>
+//        R ok cache=<n> st=<parser state> [ev;ev;...] msgs=<delivered messages>
 //        R err=<code> [ev;...]
 //        dead                      (segment after an error: not fed)
 // Direct oracles (implementation only):
@@ -22,6 +22,7 @@ import (
 	"io"
 	"net"
 	"net/http"
+	"os"
 	"sort"
 	"strconv"
 	"strings"
@@ -62,6 +63,7 @@ type rec struct {
 	msgs     []string
 	badURL   []string
 	badProto []string
+	okProto  []string
 	held     int
 	maxHeld  int
 }
@@ -86,6 +88,7 @@ func (r *rec) OnProto(p *nbhttp.Parser, s string) error {
 	if err != nil {
 		r.badProto = append(r.badProto, hx(s))
 	} else {
+		r.okProto = append(r.okProto, hx(s))
 		r.evs = append(r.evs, "proto "+hx(s))
 	}
 	return err
@@ -391,8 +394,8 @@ func newSess(client bool, maxBody, limit int) *sess {
 			if res.Body != nil {
 				b, _ = io.ReadAll(res.Body)
 			}
-			r.msgs = append(r.msgs, fmt.Sprintf("res{%s|%d|%s|%s|cl%d|%x|%s}", hx(res.Proto), res.StatusCode, hx(res.Status),
-				hdrString(res.Header), res.ContentLength, lp.Fnv(b), hdrString(res.Trailer)))
+			r.msgs = append(r.msgs, fmt.Sprintf("res{%s|%d|%s|%s|cl%d|%d:%x|%s}", hx(res.Proto), res.StatusCode, hx(res.Status),
+				hdrString(res.Header), res.ContentLength, len(b), lp.Fnv(b), hdrString(res.Trailer)))
 		})
 	} else {
 		r.inner = nbhttp.NewServerProcessor()
@@ -508,7 +511,8 @@ func exec(e *lp.Exec) {
 			if d := time.Since(t0); d > 2*time.Second {
 				e.Oracle("c08-slow", "Parse took %v on %d bytes", d, len(seg))
 			}
-			e.P("> D %s badurl=%s badproto=%s", f[1], strings.Join(s.r.badURL, ","), strings.Join(s.r.badProto, ","))
+			e.P("> D %s badurl=%s badproto=%s okproto=%s", f[1], strings.Join(s.r.badURL, ","), strings.Join(s.r.badProto, ","), strings.Join(s.r.okProto, ","))
+			s.r.okProto = nil
 			if lg.panics > 0 {
 				e.Oracle("c08-panic", "Parse recovered from a panic")
 				lg.panics = 0
@@ -546,7 +550,7 @@ func exec(e *lp.Exec) {
 				}
 			}
 			e.Count("parse_calls", "ok")
-			e.P("R ok cache=%d [%s] msgs=%s", cl, r.evs, r.msgs)
+			e.P("R ok cache=%d st=%d [%s] msgs=%s", cl, s.p.VerifState(), r.evs, r.msgs)
 		default:
 			e.P("> %s", line)
 			e.P("bad-op")
@@ -573,4 +577,10 @@ func mergeBodies(evs string) string {
 	return strings.Join(out, ";")
 }
 
-func main() { lp.Main(gen, exec) }
+func main() {
+	if len(os.Args) > 1 && os.Args[1] == "facts" {
+		facts()
+		return
+	}
+	lp.Main(gen, exec)
+}
